@@ -292,11 +292,20 @@ def run(ctx):
                                   "model": sm[i] if i is not None and i < len(sm) else sm,
                                   "impl": sr[i] if i is not None and i < len(sr) else sr,
                                   "note": "first differing reply at op %s (after shrinking); replies are '<ret> <table l:c:t,...>'" % i})
+    variant_note = ""
+    if disagreements:
+        # diagnosis only: does the tree behave like the pinned-code variant of the model (Cfg.mono = false)?
+        pinned = run_model_batch(ctx, cases, mono=0)
+        npin = sum(1 for r, m in zip(real, pinned) if r != m)
+        variant_note = "; against the pinned-code variant of the model (mono=0): %d of %d cases differ%s" % (
+            npin, len(cases), " -> the tree lacks fixes/D19-lock-time-monotone.diff" if npin == 0 else "")
+        for d in disagreements:
+            d["note"] += variant_note
     viols, nprop = property_checks(bat, ctx.rng("locks.impl.prop"), ctx.scale(300, 5000))
     res = {"cases": len(cases) + nprop, "distinct": len(seen), "coverage": dict(sorted(cov.items())),
            "samples": [{"U": cases[-1]["U"], "ops": [list(o) for o in cases[-1]["ops"][:8]], "replies": real[-1][:8]}],
            "disagreements": disagreements, "violations": viols[:3], "wall_s": round(time.time() - t0, 2),
-           "notes": "%d ops compared (return value + full table after each)" % ops_total}
+           "notes": "%d ops compared (return value + full table after each)%s" % (ops_total, variant_note)}
     missing = [k for k in FLOORS if not cov.get(k)]
     if missing:
         res["inconclusive"] = "coverage floor missed: " + ",".join(missing)
